@@ -661,7 +661,9 @@ def ob_printer_edges(run, mir, rp):
         rets = [p for p in ends if p.kind == "return"]
         if not rets:
             raise Unsupported("Type arm: no return path")
-        oke = all("".join(pc[1] for pc in text_of(ex, p) if pc[0] == "lit") == "[]" and all(pc[0] == "lit" for pc in text_of(ex, p)) for p in rets)
+        # (the components between the brackets are comma_delimited(generics): nothing for no components)
+        oke = all("".join(pc[1] for pc in text_of(ex, p) if pc[0] == "lit") == "[]" and
+                  all(pc[0] == "lit" or (pc[0] == "slot" and pc[1] == "comma_delimited") for pc in text_of(ex, p)) for p in rets)
         progs = [("function-type-without-arguments", "def f(g: () -> Int) -> Int => g()\nprint(f(\\ => 3))\n", True), ("function-type-without-arguments-variable", "def g: () -> Int := \\ => 3\nprint(g())\n", True),
                  ("function-type-with-argument", "def f(g: Int -> Int) -> Int => g(1)\n", True)]
         finish(ob, ex, z3.BoolVal(bool(oke)), syntax_replay("callable-arguments", progs), len(progs))
@@ -672,7 +674,7 @@ def ob_printer_edges(run, mir, rp):
     ob = run.ob("tail-pass-stays-pass", "E2", "append_ret (how the value of a body becomes a return): a `pass` in tail position stays `pass` - `return pass` is not Python", ["append_ret"])
     try:
         fna = e2.find1(mir, file="src/generate/convert/mod.rs", name="append_ret")
-        ex = Exec(mir, max_paths=2000)
+        ex = Exec(mir, max_paths=2000, inline=[r"skip_return$", r"skip_assign$"])
         st = State()
         ends = e2.run_kernel(run, ex, fna, [Ref(ex.new_cell(st, Agg("Core", "Pass", [])))], st)
         rets = [p for p in ends if p.kind == "return" and e2.solve(ex, list(p.cond))[0] == z3.sat]
@@ -702,7 +704,7 @@ def ob_printer_edges(run, mir, rp):
         okf, ex = True, None
         nf = 0
         for target in ("Tuple", "TupleLiteral"):
-            ex = Exec(mir, max_paths=2000)
+            ex = Exec(mir, max_paths=2000, inline=[r"skip_return$", r"skip_assign$"])
             st = State()
             tgt = e2.mk_variant(NODE_RS, "Core", target, {"elements": Opq(z3.Const("elements", Val), "Vec<Core>")})
             value = e2.mk_variant(NODE_RS, "Core", "Id", {"lit": Opq(z3.Const("v", Val), "String")})
